@@ -50,6 +50,8 @@ class C07(runner.Check):
 	real_vs_stub = {
 		"real": ["all tangermeme functions taking a model", "torch autograd, hooks, "
 			"modules", "dinucleotide_shuffle / shuffle (compiled numba)"],
+		"stub": ["design._fast_tile_substitute runs as its pure-Python body (numba's "
+			"OpenMP layer must not start inside forked torch workers)"],
 		"simulated": ["the model is generated and contains a FaultPoint identity layer "
 			"(forward/backward seams)", "reference generator / func / shuffle_fn / custom "
 			"rule are wrapped callables consulting the fault plan"],
@@ -69,6 +71,14 @@ class C07(runner.Check):
 		import torch
 		ersatz.dinucleotide_shuffle(torch.eye(4)[None].repeat(1, 1, 3), n=1,
 			random_state=0)
+		# greedy_substitution tiles candidate sequences with a numba *parallel*
+		# helper; starting numba's OpenMP layer inside a forked worker that also
+		# runs torch corrupts torch's OpenMP pool ("Invalid thread pool!") and
+		# breaks replay.  The helper is irrelevant to C07 (it never sees the
+		# model), so its pure-Python body is used instead.
+		from tangermeme import design
+		if hasattr(design._fast_tile_substitute, "py_func"):
+			design._fast_tile_substitute = design._fast_tile_substitute.py_func
 
 	# -- generation ----------------------------------------------------------
 	def gen_case(self, leg, seed, tier):
